@@ -284,6 +284,15 @@ var vC36Kinds = []vC36Kind{
 	{"moq_sessions", "KMoqSessions", defs.APIMoQSession{}, [][2]string{{"moq_session", "ID"}}, vC36SessionLabels, false},
 }
 
+func (k *vC36Kind) index() int {
+	for i := range vC36Kinds {
+		if vC36Kinds[i].typ == k.typ {
+			return i
+		}
+	}
+	panic("unknown kind")
+}
+
 // all metric names of a kind (from the struct type)
 func (k *vC36Kind) names() []string {
 	out := []string{k.typ}
@@ -322,6 +331,7 @@ type vC36X struct {
 	Tags   [][2]string
 	NoTags bool
 	Vals   []vC36Val
+	Schema string // "": names printed with the values; "vm<i>": Vals are in the order of that name list; "vz<i>": zero lines
 }
 
 func vC36SortTags(t [][2]string) [][2]string {
@@ -336,7 +346,7 @@ func (k *vC36Kind) expect(e *vC36Ent) []vC36X {
 	for _, l := range k.labels {
 		tags = append(tags, [2]string{l[0], k.source(e, l[1])})
 	}
-	x := vC36X{Tags: vC36SortTags(tags)}
+	x := vC36X{Tags: vC36SortTags(tags), Schema: fmt.Sprintf("vm%d", k.index())}
 	x.Vals = append(x.Vals, vC36Val{Name: k.typ, I: 1})
 	for _, nv := range e.Num {
 		if nv.Bool {
@@ -405,21 +415,72 @@ func vC36Pairs(p [][2]string) string {
 	return cqListOf(p, func(kv [2]string) string { return cqPair(vC36B(kv[0]), vC36B(kv[1])) })
 }
 
-func vC36EntCoq(e vC36Ent) string {
-	return cqApp("E", vC36Pairs(e.Str),
-		cqListOf(e.Num, func(nv vC36NV) string { return cqPair(vC36B(nv.Name), cqU(nv.V)) }),
-		vC36Pairs(e.Flt), cqListOf(e.Readers, vC36B))
+// Field and metric names are the same for every entity of a kind: they are defined once per cases file (the
+// "preamble" record: vs<i>/vn<i>/vf<i> = string / numeric / float field names of kind i in struct order, vm<i> =
+// the metric names of one entity in the order of expect(), vz<i> = all metric names of the kind, vcov = all names)
+// and the cases only carry the values.
+func vC36EntCoq(ki int, e vC36Ent) string {
+	return cqApp("EZ", fmt.Sprintf("vs%d vn%d vf%d", ki, ki, ki),
+		cqListOf(e.Str, func(kv [2]string) string { return vC36B(kv[1]) }),
+		cqListOf(e.Num, func(nv vC36NV) string { return cqU(nv.V) }),
+		cqListOf(e.Flt, func(kv [2]string) string { return vC36B(kv[1]) }),
+		cqListOf(e.Readers, vC36B))
 }
 
-func vC36EntsCoq(es []vC36Ent) string { return cqListOf(es, vC36EntCoq) }
+func vC36EntsCoq(ki int, es []vC36Ent) string {
+	return cqListOf(es, func(e vC36Ent) string { return vC36EntCoq(ki, e) })
+}
+
+func vC36ValCoq(v vC36Val) string {
+	if v.Tok != "" {
+		return cqApp("VT", vC36B(v.Tok))
+	}
+	return cqApp("VI", cqZ(v.I))
+}
 
 func vC36XCoq(x vC36X) string {
+	switch {
+	case strings.HasPrefix(x.Schema, "vz"):
+		return cqApp("XZ", x.Schema)
+	case x.Schema != "":
+		return cqApp("XE", cqOpt(!x.NoTags, vC36Pairs(x.Tags)), x.Schema, cqListOf(x.Vals, vC36ValCoq))
+	}
 	return cqApp("X", cqOpt(!x.NoTags, vC36Pairs(x.Tags)), cqListOf(x.Vals, func(v vC36Val) string {
-		if v.Tok != "" {
-			return cqPair(vC36B(v.Name), cqApp("VT", vC36B(v.Tok)))
-		}
-		return cqPair(vC36B(v.Name), cqApp("VI", cqZ(v.I)))
+		return cqPair(vC36B(v.Name), vC36ValCoq(v))
 	}))
+}
+
+func vC36Preamble(covered []string) string {
+	var sb strings.Builder
+	def := func(name string, l []string) {
+		fmt.Fprintf(&sb, "Definition %s : list bytes := %s.\n", name, cqListOf(l, vC36B))
+	}
+	for ki := range vC36Kinds {
+		k := &vC36Kinds[ki]
+		var proto vC36Ent
+		proto = vC36Canon(reflect.ValueOf(k.proto))
+		var sn, nn, fn []string
+		for _, kv := range proto.Str {
+			sn = append(sn, kv[0])
+		}
+		for _, nv := range proto.Num {
+			nn = append(nn, nv.Name)
+		}
+		for _, kv := range proto.Flt {
+			fn = append(fn, kv[0])
+		}
+		def(fmt.Sprintf("vs%d", ki), sn)
+		def(fmt.Sprintf("vn%d", ki), nn)
+		def(fmt.Sprintf("vf%d", ki), fn)
+		var mn []string
+		for _, v := range k.expect(&proto)[0].Vals {
+			mn = append(mn, v.Name)
+		}
+		def(fmt.Sprintf("vm%d", ki), mn)
+		def(fmt.Sprintf("vz%d", ki), k.names())
+	}
+	def("vcov", covered)
+	return sb.String()
 }
 
 // ---- generators ----
@@ -572,11 +633,11 @@ type vC36Listing struct {
 	ents    []vC36Ent
 }
 
-func (l vC36Listing) coq() string {
+func (l vC36Listing) coq(ki int) string {
 	if l.failed {
 		return "Failed"
 	}
-	return cqApp("Listed", vC36EntsCoq(l.ents))
+	return cqApp("Listed", vC36EntsCoq(ki, l.ents))
 }
 
 func TestVerifC36(t *testing.T) {
@@ -592,7 +653,7 @@ func TestVerifC36(t *testing.T) {
 		covered = append(covered, vC36Kinds[i].names()...)
 		kindByType[vC36Kinds[i].typ] = &vC36Kinds[i]
 	}
-	coveredCoq := cqListOf(covered, vC36B)
+	out.Case("", map[string]any{"preamble": vC36Preamble(covered)}, "preamble", false)
 	dist := map[string]int{}
 
 	for i := 0; i < n; i++ {
@@ -842,25 +903,21 @@ func TestVerifC36(t *testing.T) {
 					}
 				}
 			} else if !own && (!k.zeroType || q["type"] == k.typ) {
-				x := vC36X{NoTags: true}
-				for _, nm := range k.names() {
-					x.Vals = append(x.Vals, vC36Val{Name: nm, I: 0})
-				}
-				exp = append(exp, x)
+				exp = append(exp, vC36X{NoTags: true, Schema: fmt.Sprintf("vz%d", ki)})
 				nZero++
 			}
 		}
 
 		// ---- the case ----
-		pathsCoq := cqOpt(!pm.listErr, vC36EntsCoq(pathEnts))
+		pathsCoq := cqOpt(!pm.listErr, vC36EntsCoq(0, pathEnts))
 		fwdCoq := cqListOf(fwdOrder, func(name string) string {
 			l := pm.forwards[name]
-			return cqPair(vC36B(name), cqOpt(l != nil, vC36EntsCoq(fwdByName[name])))
+			return cqPair(vC36B(name), cqOpt(l != nil, vC36EntsCoq(1, fwdByName[name])))
 		})
 		var srv []string
 		for ki := 2; ki < len(vC36Kinds); ki++ {
 			if l, ok := listings[vC36Kinds[ki].typ]; ok {
-				srv = append(srv, cqPair(vC36Kinds[ki].coq, l.coq()))
+				srv = append(srv, cqPair(vC36Kinds[ki].coq, l.coq(ki)))
 			}
 		}
 		qCoq := cqListOf(qOrder, func(k string) string { return cqPair(vC36B(k), vC36B(q[k])) })
@@ -886,7 +943,7 @@ func TestVerifC36(t *testing.T) {
 				descL[typ] = l.ents
 			}
 		}
-		out.Case(cqApp("Scrape", pathsCoq, fwdCoq, cqList(srv), qCoq, vC36B(body), coveredCoq, cqListOf(exp, vC36XCoq)),
+		out.Case(cqApp("Scrape", pathsCoq, fwdCoq, cqList(srv), qCoq, vC36B(body), "vcov", cqListOf(exp, vC36XCoq)),
 			map[string]any{"target": target, "query": q, "servers": descL, "body": body,
 				"expected_entities": nShown, "zero_kinds": nZero},
 			class, g.hostile > 0 && nShown > 0)
